@@ -104,12 +104,16 @@ def gjk_nesterov_accelerated(
     normalize_support_direction = type(collider0) == MeshGraph and type(collider1) == MeshGraph
 
     # Infaltion is only used with spheres and capsules
+    # The radius is only missing in the specialised support functions, which
+    # are only used if both colliders have one (see support_function).
     inflation = 0.0
-    if type(collider0) == Sphere or type(collider0) == Capsule:
-        inflation += collider0.radius
+    if select_support(np.array([1.0, 0.0, 0.0]), collider0)[1] and \
+            select_support(np.array([1.0, 0.0, 0.0]), collider1)[1]:
+        if type(collider0) == Sphere or type(collider0) == Capsule:
+            inflation += collider0.radius
 
-    if type(collider1) == Sphere or type(collider1) == Capsule:
-        inflation += collider1.radius
+        if type(collider1) == Sphere or type(collider1) == Capsule:
+            inflation += collider1.radius
 
     upper_bound += inflation
 
